@@ -9,7 +9,7 @@ INCS := $(foreach d,common theta tuple hll cpc kll req quantiles fi count sampli
 CXXFLAGS := -std=c++14 $(OPT) -g1 $(SAN) -DDATASKETCHES_VERIF $(INCS) -fno-omit-frame-pointer -Wall -Wno-unused-function -Wno-unused-variable
 SIMH := $(wildcard sim/*.hpp) $(wildcard $(REPO)/*/include/*.hpp) $(wildcard $(REPO)/*/include/*.h)
 
-BINS := store_d store_q store_m agg_theta agg_hll agg_cpc quant addagg shm heap_d heap_q heap_m agg_tuple skew_d skew_q skew_m base_d base_q base_m
+BINS := store_d store_q store_m agg_theta agg_hll agg_cpc quant addagg shm heap_d heap_q heap_m heap_o agg_tuple skew_d skew_q skew_m base_d base_q base_m
 
 all: $(addprefix $(BUILD)/,$(BINS))
 
@@ -30,6 +30,7 @@ $(BUILD)/base_m: worlds/skew.cpp $(BASEH) Makefile ; @mkdir -p $(BUILD) && $(CXX
 $(BUILD)/heap_d: worlds/heap.cpp $(SIMH) Makefile ; @mkdir -p $(BUILD) && $(CXX) $(CXXFLAGS) -DGROUP_DISTINCT $< -o $@
 $(BUILD)/heap_q: worlds/heap.cpp $(SIMH) Makefile ; @mkdir -p $(BUILD) && $(CXX) $(CXXFLAGS) -DGROUP_QUANT $< -o $@
 $(BUILD)/heap_m: worlds/heap.cpp $(SIMH) Makefile ; @mkdir -p $(BUILD) && $(CXX) $(CXXFLAGS) -DGROUP_MISC $< -o $@
+$(BUILD)/heap_o: worlds/heap.cpp $(SIMH) Makefile ; @mkdir -p $(BUILD) && $(CXX) $(CXXFLAGS) -DGROUP_OPS $< -o $@
 $(BUILD)/%: worlds/%.cpp $(SIMH) Makefile ; @mkdir -p $(BUILD) && $(CXX) $(CXXFLAGS) $< -o $@
 
 .PHONY: all
